@@ -3,7 +3,7 @@ package queue
 // C03 part h — "head first" while the worker sits in a delay. After a handler result that makes
 // the worker wait before its next task (failure back-off, DelayOnRepeat, DelayBeforeNextTask
 // with Success or Keep) the head of the queue may change through the queue's public API
-// (AddFirst, Remove, Filter - programs built on this library do that; shell-operator's own
+// (AddFirst, AddBefore, AddLast, Remove, RemoveFirst, Filter, with or without CancelTaskDelay - programs built on this library do that; shell-operator's own
 // traffic only appends). The real TaskQueue runs under the controlled scheduler; an
 // administrative thread issues one operation at an enumerated virtual instant strictly inside
 // the delay (the clock only advances when no thread can run, so no schedule moves the operation
@@ -26,11 +26,11 @@ import (
 func TestVerifC03h(t *testing.T) {
 	r := vres.New("c03h")
 	defer r.Finish()
-	bound := vres.Pick(1, 2)
+	bound := vres.Pick(2, 3)
 	r.Bound("deviation_bound", bound)
 	offsets := []time.Duration{time.Millisecond, 10 * time.Millisecond, 60 * time.Millisecond, 130 * time.Millisecond, time.Second, 3 * time.Second}
 	r.Bound("operation_offsets_after_handler_return", fmt.Sprint(offsets))
-	ops := []string{"none", "AddFirst(u)", "Remove(head)", "Filter(drop head)", "AddFirst(u);Remove(old head)"}
+	ops := []string{"none", "AddFirst(u)", "Remove(head)", "Filter(drop head)", "AddFirst(u);Remove(old head)", "AddBefore(head,u)", "RemoveFirst()", "AddLast(u)", "AddFirst(u);CancelTaskDelay"}
 	r.Bound("operations", ops)
 	var ord int64
 	for _, first := range c17bResults() {
@@ -98,6 +98,19 @@ func TestVerifC03h(t *testing.T) {
 						case "Filter(drop head)":
 							q.Filter(func(tk task.Task) bool { return tk.GetId() != head })
 							model = model[1:]
+						case "AddBefore(head,u)":
+							q.AddBefore(head, c05task("u", 9))
+							model = append([]string{"u"}, model...)
+						case "RemoveFirst()":
+							q.RemoveFirst()
+							model = model[1:]
+						case "AddLast(u)":
+							q.AddLast(c05task("u", 9))
+							model = append(model, "u")
+						case "AddFirst(u);CancelTaskDelay":
+							q.AddFirst(c05task("u", 9))
+							model = append([]string{"u"}, model...)
+							q.CancelTaskDelay()
 						case "AddFirst(u);Remove(old head)":
 							q.AddFirst(c05task("u", 9))
 							q.Remove(head)
@@ -128,7 +141,7 @@ func TestVerifC03h(t *testing.T) {
 						r.Violation("C03h scenario", key, "the operation was never issued", nil)
 						return
 					}
-					if secondAt >= 0 && secondAt <= opAt {
+					if secondAt >= 0 && secondAt <= opAt && !strings.Contains(op, "Cancel") {
 						// the worker left its delay before the operation: the scenario's premise does not hold
 						r.Violation("C03h delay-not-respected result="+first.id, key, fmt.Sprintf("%s: the second handler call began at +%s, the operation was issued at +%s inside a delay of %s", name, secondAt, opAt, first.delay), nil)
 						return
